@@ -23,6 +23,9 @@ def walk_schema(path, pos, s, parent=None):
             yield from walk_schema(path + ["properties", k], "prop", v)
     if isinstance(s.get("items"), dict):
         yield from walk_schema(path + ["items"], "items", s["items"])
+    for i, m in enumerate(s.get("prefixItems") or []):
+        if isinstance(m, dict):
+            yield from walk_schema(path + ["prefixItems", i], "prefix", m)
     if isinstance(s.get("additionalProperties"), dict):
         yield from walk_schema(path + ["additionalProperties"], "addl", s["additionalProperties"])
     total = sum(len(s.get(k) or []) for k in ("allOf", "anyOf", "oneOf"))
@@ -274,7 +277,7 @@ def site_doc(rng: random.Random, n=22, version="3.1.0"):
                 s["minimum"], s["exclusiveMinimum"] = rng.choice([0, 5]), True
             else:
                 s["exclusiveMaximum"] = rng.choice([10, 99.5])
-        pos = rng.choice(["prop", "prop", "items", "addl", "member", "param", "body", "response", "root"])
+        pos = rng.choice(["prop", "prop", "items", "addl", "member", "param", "body", "response", "root", "tuple", "tuple", "dupmember", "allofdup"])
         if pos == "root" and "$ref" in s:
             pos = "prop"
         if pos == "root":
@@ -287,6 +290,22 @@ def site_doc(rng: random.Random, n=22, version="3.1.0"):
             comps[f"H{i}"] = {"type": "object", "properties": {"k": {"type": "string"}}, "additionalProperties": s}
         elif pos == "member":
             comps[f"H{i}"] = {"type": "object", "properties": {"u": {rng.choice(["anyOf", "oneOf"]): [s, {"type": "integer"}]}}}
+        elif pos == "tuple":
+            # sibling sub-schemas that say the same thing, in the same or in another spelling (prefixItems vs items)
+            other = copy.deepcopy(s) if rng.random() < 0.5 else NG.respell(s, rng)
+            arr = {"type": "array", "prefixItems": [s] + ([{"type": "integer"}] if rng.random() < 0.3 else []), "items": other}
+            if rng.random() < 0.3:
+                comps[f"C{i}"] = arr
+            elif rng.random() < 0.3:
+                paths[f"/o{i}"] = {"get": {"operationId": f"op{i}", "responses": {"200": {"description": "ok", "content": {"application/json": {"schema": arr}}}}}}
+            else:
+                comps[f"H{i}"] = {"type": "object", "properties": {"cells": arr}}
+        elif pos == "dupmember":
+            other = copy.deepcopy(s) if rng.random() < 0.5 else NG.respell(s, rng)
+            comps[f"H{i}"] = {"type": "object", "properties": {"u": {rng.choice(["anyOf", "oneOf"]): [s, other] + ([{"type": "integer"}] if rng.random() < 0.5 else [])}}}
+        elif pos == "allofdup":
+            other = copy.deepcopy(s) if rng.random() < 0.5 else NG.respell(s, rng)
+            comps[f"H{i}"] = {"allOf": [{"type": "object", "properties": {"x": s}}, {"type": "object", "properties": {"x": other, "y": {"type": "string"}}}]}
         elif pos == "param":
             paths[f"/o{i}"] = {"get": {"operationId": f"op{i}", "parameters": [{"name": "q", "in": "query", "schema": s}], "responses": {"200": {"description": "ok"}}}}
         elif pos == "body":
@@ -311,6 +330,9 @@ def refdefaults_doc(rng: random.Random, wrapped=None):
     comps["Order"] = {"type": "object", "required": ["id"],
                       "properties": {"id": {"type": "integer"}, **{n.lower(): use(n) for n in names},
                                      "tags": {"type": "array", "items": use(names[0])},
+                                     "cells": {"type": "array", "prefixItems": [use(names[3])], "items": use(names[3])},
+                                     "row": {"type": "array", "prefixItems": [use(names[4]), {"type": ["string", "null"], "format": "date"}],
+                                             "items": {"type": ["string", "null"], "format": "date"}},
                                      "either": {"anyOf": [use(names[1]), {"type": "array", "items": {"type": "integer"}}]}},
                       "additionalProperties": use(names[2])}
     comps["Req"] = {"type": "object", "required": [n.lower() for n in names[:4]], "properties": {n.lower(): use(n) for n in names[:4]}}
